@@ -50,6 +50,159 @@ def gen_docs(ctx, n, big):
     return docs
 
 
+# ------------------------------------------------------------------ characters beyond ASCII, in every position
+# Hard-coded facts, NOT read from the library under test (CSS Syntax Module Level 3, section 4.2 "Definitions" and
+# section 3.3 "Preprocessing the input stream"; the Unicode White_Space / NFKC data for the look-alike lists):
+#   * white space of a stylesheet is exactly U+0009 TAB, U+000A LF, U+000D CR, U+0020 SPACE (and U+000C FF);
+#   * every code point >= U+0080 is a name ("non-ASCII ident") code point, the C0 controls other than those above and
+#     U+007F are ordinary (delim) code points: all of them are part of the selector / name / value they occur in;
+#   * only the ASCII characters { } : ; ( ) " ' / * \ have structural meaning.
+# So none of the characters below separates, delimits, quotes or can be trimmed from anything, although Python's
+# str.isspace() / str.strip() / str.split() / str.splitlines(), unicodedata.normalize() and the case mappings treat
+# many of them like white space, line ends or ASCII punctuation.  Left out on purpose because the statement does not
+# pin them: U+00A0 (Emmet counts it as white space, CSS does not) and U+000C (CSS counts it as white space, Emmet
+# does not).
+WIDE_CLASSES = {
+    # str.isspace() is true for each of these; the last four of the first row and \x85 \u2028 \u2029 also end a line
+    # for str.splitlines()
+    'space-lookalike': ['\x0b', '\x1c', '\x1d', '\x1e', '\x1f', '\x85', '\u1680', '\u2000', '\u2001', '\u2002', '\u2003',
+                        '\u2004', '\u2005', '\u2006', '\u2007', '\u2008', '\u2009', '\u200a', '\u2028', '\u2029',
+                        '\u202f', '\u205f', '\u3000'],
+    # invisible / format characters and remaining controls (str.isspace() false)
+    'invisible': ['\u200b', '\u200c', '\u200d', '\u2060', '\ufeff', '\xad', '\u180e', '\x01', '\x7f', '\x80', '\x9f', '\x00'],
+    # compatibility forms of the delimiters (NFKC / NFC folds them to { } : ; ( ) " ' / * \ , -) and other colon / semicolon twins
+    'delimiter-lookalike': ['\uff1a', '\uff1b', '\uff5b', '\uff5d', '\uff08', '\uff09', '\uff02', '\uff07', '\uff0f',
+                            '\uff0a', '\uff3c', '\ufe55', '\ufe54', '\ufe5b', '\ufe5c', '\ufe59', '\ufe5a', '\u037e',
+                            '\u2236', '\u02d0', '\u2215', '\u2044', '\u201c', '\u201d', '\u2018', '\u2019', '\uff0c'],
+    # letters, digits, marks: accented, case mappings that change the length (\xdf, \u0130, \ufb01, \u0149), combining
+    # mark, non-ASCII decimal digits, full-width letter, CJK, beyond the BMP
+    'letter': ['\xe9', '\xdf', '\u0130', '\u0131', '\ufb01', '\u0149', '\u03a9', '\u044f', '\u4e2d', '\uff58', '\u0301',
+               '\u0663', '\xb2', '\U0001f600', '\U00010400', '\uffff', '\U0010ffff'],
+}
+WIDE_WORDS = {
+    'selector': ['a', '.b', '#c', 'ul > li', 'a:hover', '::before', ':root', '&.sel', 'li:not(:last-child)', 'a, b',
+                 '@media (min-width: 10px)', '@font-face', 'a[title="x;}"]', '@include mq($from: mobile)', 'from', '50%'],
+    'name': ['color', 'margin-top', 'b', '$var', '--custom', '--x', 'font', '*zoom', '-webkit-transition'],
+    'value': ['10px', 'red', '#fff', '$var', '-1px', '!important', '0', 'c', '1.5em', 'a-b', '100%'],
+}
+
+
+def wide_chars(rng, cover, where):
+    """one or two characters of one class"""
+    cls = rng.choice(sorted(WIDE_CLASSES))
+    cover('wide:%s:%s' % (where, cls))
+    return ''.join(rng.choice(WIDE_CLASSES[cls]) for _ in range(rng.choice((1, 1, 1, 2))))
+
+
+def wide_word(rng, cover, where, p):
+    """a selector / name / value word, with probability p carrying non-ASCII (or control) characters: as the whole
+    word, as its first, its last, its first and last characters, or between two of its letters"""
+    w = rng.choice(WIDE_WORDS[where])
+    if rng.random() >= p:
+        return w
+    place = rng.choice(('whole', 'first', 'last', 'first-and-last', 'inside'))
+    if place == 'inside':
+        cuts = [i for i in range(1, len(w)) if w[i - 1].isalnum() and w[i].isalnum() and w[i - 1].isascii() and w[i].isascii()]
+        if not cuts:
+            place = 'last'
+        else:
+            i = rng.choice(cuts)
+            w = w[:i] + wide_chars(rng, cover, where) + w[i:]
+    if place == 'whole':
+        w = wide_chars(rng, cover, where)
+    elif place == 'first':
+        w = wide_chars(rng, cover, where) + w
+    elif place == 'last':
+        w = w + wide_chars(rng, cover, where)
+    elif place == 'first-and-last':
+        w = wide_chars(rng, cover, where) + w + wide_chars(rng, cover, where)
+    cover('wide:%s:%s' % (where, place))
+    return w
+
+
+def pick(rng, options):
+    """one of the options; a callable option is called only when chosen (so that generator calls and coverage counts
+    describe what was actually written)"""
+    o = rng.choice(options)
+    return o() if callable(o) else o
+
+
+def wide_string(rng, cover):
+    """a quoted string mixing such characters with delimiters, comment markers and escape pairs"""
+    q = rng.choice('"\'')
+    bits = ['{', '}', ';', ':', '(', ')', '/*', '*/', '\\' + q, '\\\\', 'a', ' ', '"' if q == "'" else "'"]
+    out = ''
+    for _ in range(rng.randint(1, 5)):
+        r = rng.random()
+        if r < 0.5:
+            out += wide_chars(rng, cover, 'string')
+        elif r < 0.6:
+            out += '\\' + wide_chars(rng, cover, 'string-escaped')
+        else:
+            out += rng.choice(bits)
+    return q + out + q
+
+
+def wide_comment(rng, cover):
+    out = ''
+    for _ in range(rng.randint(1, 4)):
+        out += wide_chars(rng, cover, 'comment') if rng.random() < 0.6 else rng.choice(['{', '}', ';', ':', ' ', 'a: b;', '*', '/', '"', "'"])
+    return '/*' + out.replace('*/', '* /') + '*/'
+
+
+def wide_atom(rng, cover, p):
+    r = rng.random()
+    if r < 0.5:
+        return wide_word(rng, cover, 'value', p)
+    if r < 0.7:
+        return wide_string(rng, cover) if rng.random() < p else U.rnd_string(rng)
+    if r < 0.8:
+        return 'url(' + (wide_string(rng, cover) if rng.random() < 0.5 else wide_chars(rng, cover, 'parenthesised')) + ')'
+    # parenthesised expression: colons (never ; { }) and such characters inside
+    inner = wide_word(rng, cover, 'value', p)
+    if rng.random() < 0.5:
+        inner = wide_word(rng, cover, 'name', p) + rng.choice([': ', ':']) + inner
+    if rng.random() < 0.4:
+        inner = '(' + inner + ')' + rng.choice([', ', ' ']) + wide_word(rng, cover, 'value', p)
+    return pick(rng, ['f', 'calc', 'var', '', lambda: wide_word(rng, cover, 'value', 1)]) + '(' + inner + ')'
+
+
+def wide_items(rng, cover, depth, top, p):
+    """mk_sheet specification of a body; p = share of the words / strings / comments that carry such characters"""
+    spec = []
+    com = lambda: wide_comment(rng, cover) if rng.random() < p else rng.choice(U.COMMENTS)  # noqa: E731
+    gap = lambda: U.rnd_ws(rng) + (com() + U.rnd_ws(rng) if rng.random() < 0.25 else '')  # noqa: E731
+    for _ in range(rng.randint(1 if top else 0, 3)):
+        spec.append(gap())
+        if depth < 2 and rng.random() < (0.7 if top else 0.3):
+            sel = wide_word(rng, cover, 'selector', p)
+            spec.append(('rule', sel, gap() if rng.random() < 0.2 else U.rnd_ws(rng),
+                         wide_items(rng, cover, depth + 1, False, p)))
+        else:
+            atoms = []
+            for i in range(rng.choice((1, 1, 1, 2, 3))):
+                sep = '' if i == 0 else pick(rng, [' ', ' ', ', ', ',', ' / ', '\n    ', lambda: ' ' + com() + ' '])
+                atoms.append((sep, wide_atom(rng, cover, p)))
+            spec.append(('decl', wide_word(rng, cover, 'name', p), pick(rng, ['', '', '', ' ', com]),
+                         pick(rng, [' ', ' ', '', '\n    ', lambda: ' ' + com() + ' ']), atoms,
+                         pick(rng, ['', '', '', ' ', '\n', lambda: ' ' + com()]), True))
+    spec.append(gap())
+    return spec
+
+
+def gen_wide_docs(ctx, n):
+    """Stylesheets whose selectors, names, values, strings, comments and parenthesised expressions carry the characters
+    of WIDE_CLASSES in every position (whole word, first, last, inside), with the same kind of record as U.gen_sheet;
+    sparse sheets (one word in five), mixed and dense ones."""
+    docs = []
+    for _ in range(n):
+        p = ctx.rng.choice((0.2, 0.45, 0.8))
+        docs.append(U.mk_sheet(wide_items(ctx.rng, ctx.cover, 0, True, p)))
+        ctx.cover('wide:sheets')
+        ctx.cover('wide:sheets:share-of-words-%d%%' % int(p * 100))
+    return docs
+
+
 def oracle_doc(text, items, im):
     """first failing (pos, func, why) per function, over all positions"""
     bad = {}
@@ -182,7 +335,17 @@ def run(ctx):
         'corpus of past failures first, then random rule trees rendered to text with recorded offsets (nested rules, '
         'semicolon-terminated declarations, pseudo-selectors incl. leading : and ::, at-rules with parenthesised '
         'conditions, attribute selectors and values with braces/colons/semicolons inside strings, comments between '
-        'items / inside selectors / inside values, $variables, --custom properties, several top-level rules); every '
+        'items / inside selectors / inside values, $variables, --custom properties, several top-level rules); then '
+        'stylesheets of the same shape (built with css_util.mk_sheet, buckets wide:*) whose selectors, property names, '
+        'value words, quoted strings (also escaped), comments and parenthesised expressions carry characters beyond '
+        'printable ASCII as the whole word, its first, its last, its first and last characters or between two letters: '
+        'the code points for which str.isspace() holds but which are not CSS white space (U+000B, U+001C-1F, U+0085, '
+        'U+1680, U+2000-200A, U+2028/2029, U+202F, U+205F, U+3000), invisible/format and control characters (NUL, U+0001, '
+        'U+007F-9F, soft hyphen, ZWSP/ZWNJ/ZWJ, word joiner, BOM), compatibility twins of the delimiters (full-width '
+        'and small { } : ; ( ) " \' / * \\ , Greek question mark, ratio, typographic quotes) and letters/digits/marks '
+        '(accented, length-changing case mappings, combining mark, non-ASCII digits, CJK, beyond the BMP); by the CSS '
+        'syntax all of these are ordinary name characters and the record counts them as part of the word they stand '
+        'in (U+00A0 and U+000C are not generated: the statement does not say which side they are on); every '
         'position -1..len+1; match, balanced_outward, balanced_inward compared with the generator\'s record (oracle) '
         'and with the extracted model (correspondence). An evaluation is one (sheet, position); it is non-trivial '
         'when the position lies strictly inside a declaration or rule; distinct by (text, position).')
@@ -190,6 +353,8 @@ def run(ctx):
     docs = [(c['text'], c['items']) for c in corpus if not c.get('finding_key')]
     n_corpus = len(docs)
     docs += gen_docs(ctx, 260 if quick else 5000, not quick)
+    n_classic = len(docs)
+    docs += gen_wide_docs(ctx, 70 if quick else 1400)
     texts = [t for t, _ in docs]
     impls = U.impl_docs(texts, FUNCS, procs)
     ctx.cover('docs', len(docs))
@@ -210,7 +375,7 @@ def run(ctx):
         bad = oracle_doc(text, items, im)
         for f, (pos, why) in bad.items():
             failures.append((len(text), i, f, pos, why))
-        if n_corpus <= i < n_corpus + 3:
+        if n_corpus <= i < n_corpus + 3 or n_classic <= i < n_classic + 2:
             ctx.sample({'text': text, 'match@%d' % (len(text) // 2): repr(im['match'][len(text) // 2 + 1]),
                         'outward': repr(im['outward'][len(text) // 2 + 1])})
     failures.sort()
